@@ -186,8 +186,8 @@ TRUSTED = COMMON_TRUSTED + [
 
 register(Prop(
     'C03', 'Mqtt.Properties.C03', ['codec'],
-    runs=[Run('codec-wf', quick=25000, thorough=120000, seeds_thorough=6),
-          Run('codec-build', quick=25000, thorough=120000, seeds_thorough=6),
+    runs=[Run('codec-wf', quick=25000, thorough=50000, seeds_thorough=5),
+          Run('codec-build', quick=25000, thorough=50000, seeds_thorough=5),
           Run('codec-ids', quick=75000, thorough=300000, seeds_thorough=2),
           Run('codec-mal', quick=20000, thorough=60000, seeds_thorough=2)],
     oracle=c03_oracle, nontrivial=codec_nontrivial, spec_total=False, classes=CLASSES,
